@@ -647,9 +647,29 @@ def trust_imports(ctx: core.Ctx, mod: ast.Module, rel, names):
                       f"cannot be decided statically")
 
 
+def _through_siblings(ctx: core.Ctx, mod: ast.Module, cls: ast.ClassDef, names):
+    """one-expression helpers of sibling modules (`common.eliminate(..)`) are read through in the block class (on a copy); the trusted sympy entry
+    points they use must be sympy's own there as well"""
+    import copy as _copy
+    from . import normast as _nm
+    cls = _copy.deepcopy(cls)
+    used = _nm.expand_sibling_calls(cls, mod)
+    for m, hs in sorted(used.items()):
+        srel = f"py/formak/{m}.py"
+        smod = ctx.parse(srel)
+        called = {c.func.id for h in smod.body if isinstance(h, ast.FunctionDef) and h.name in hs for c in ast.walk(h)
+                  if isinstance(c, ast.Call) and isinstance(c.func, ast.Name)}
+        trust_imports(ctx, smod, srel, [n for n in names if n in called])
+        for h in smod.body:
+            if isinstance(h, ast.FunctionDef) and h.name in hs:
+                ctx.functions.append(f"{m}.{h.name} (read through)")
+    return cls
+
+
 def check_python_block(ctx: core.Ctx, mod: ast.Module, rel="py/formak/python.py"):
     trust_imports(ctx, mod, rel, ["cse", "simplify", "lambdify"])
     cls = core.need(core.find_class(mod, "BasicBlock"), "python.BasicBlock")
+    cls = _through_siblings(ctx, mod, cls, ["cse", "simplify", "lambdify"])
     init = core.need(core.find_func(cls, "__init__"), "python.BasicBlock.__init__")
     comp = core.need(core.find_func(cls, "_compile"), "python.BasicBlock._compile")
     exe = core.need(core.find_func(cls, "execute"), "python.BasicBlock.execute")
@@ -913,6 +933,7 @@ def _call_args_ok(v, tdict):
 def check_cpp_block(ctx: core.Ctx, mod: ast.Module, rel="py/formak/cpp.py"):
     trust_imports(ctx, mod, rel, ["cse", "simplify", "ccode", "diff"])
     cls = core.need(core.find_class(mod, "BasicBlock"), "cpp.BasicBlock")
+    cls = _through_siblings(ctx, mod, cls, ["cse", "simplify", "ccode", "diff"])
     init = core.need(core.find_func(cls, "__init__"), "cpp.BasicBlock.__init__")
     comp = core.need(core.find_func(cls, "compile"), "cpp.BasicBlock.compile")
     ctx.functions += ["cpp.BasicBlock.__init__", "cpp.BasicBlock.compile"]
